@@ -259,6 +259,24 @@ def corpus(features=()):
     out.append(dict(name="view_of_rc_component_sent_to_thread", family="trait",
                     bad=rc_prelude.replace("CompB(pub std::rc::Rc<u32>)", "CompB(pub std::rc::Rc<u32>)") + "fn main() {\n    let mut world = EcsWorld::new();\n    let e = world.create::<ArchFoo>((CompA(1), CompB(std::rc::Rc::new(2))));\n" + view_thread + "}\n",
                     good=prog(view_thread)))
+    # the library's own holder types that are built on raw pointers or carry hand-written auto-trait impls (the iterators of
+    # Archetype::iter / iter_mut, the all-slices struct): handing one to another thread must be rejected whenever the access it
+    # gives would need an auto trait a component lacks - shared access (&C) needs C: Sync, exclusive access (&mut C) needs
+    # C: Send. The twin keeps the holder in the parent thread while an unrelated thread runs.
+    mk = {"rc": ("std::rc::Rc::new(2)", rc_prelude), "cell": ("std::cell::Cell::new(2)", cell_prelude),
+          "guard": ("Box::leak(Box::new(std::sync::Mutex::new(2u32))).lock().unwrap()", guard_prelude)}
+    holders = (("iter", "world.arch_foo.iter()", "for _ in h {}", ("rc", "cell")),
+               ("iter_mut", "world.arch_foo.iter_mut()", "for _ in h {}", ("rc", "guard")),
+               ("all_slices", "world.arch_foo.get_all_slices_mut()", "let _ = h.comp_b.len();", ("rc", "guard")),
+               ("world_view", "world.view(e).unwrap()", "let mut h = h; let _ = h.component_mut::<CompA>().0;", ("rc", "guard")),
+               ("archetype_view", "world.arch_foo.view(e).unwrap()", "let mut h = h; let _ = h.component_mut::<CompA>().0;", ("rc", "guard")))
+    for hname, hexpr, huse, kinds in holders:
+        for kind in kinds:
+            val, prel = mk[kind]
+            head = prel + "fn main() {\n    let mut world = EcsWorld::new();\n    let e = world.create::<ArchFoo>((CompA(1), CompB(%s)));\n    let h = %s;\n" % (val, hexpr)
+            out.append(dict(name="%s_of_%s_component_sent_to_thread" % (hname, kind), family="trait",
+                            bad=head + "    std::thread::scope(|s| { s.spawn(move || { %s }); });\n}\n" % huse,
+                            good=head + "    std::thread::scope(|s| { s.spawn(|| { let _ = 1; }); %s });\n}\n" % huse))
     # handles are Copy + Send + Sync whatever the components are: must compile (paired with the world itself not being Send)
     out.append(dict(name="handles_are_copy_send_sync", family="trait",
                     bad=rc_prelude + helper + "fn main() { need_css::<EcsWorld>(); }\n",
